@@ -12,7 +12,7 @@ pub assume_specification<T, A: core::alloc::Allocator> [std::collections::VecDeq
     ensures r == (q@.len() == 0);
 
 // ---- opaque value types ---------------------------------------------------------------------------------
-//@trusted T7 SignatureType, HashAlgorithm, PublicKeyAlgorithm are opaque Copy values (only their identity matters here); KeyId, Timestamp, Password, Subpacket, SubpacketConfig, LiteralDataHeader, SignatureBytes are opaque values
+//@trusted T7 SignatureType, HashAlgorithm, PublicKeyAlgorithm are opaque Copy values (only their identity matters here); KeyId, Timestamp, Password, Subpacket, LiteralDataHeader are opaque values
 #[verifier::external_body] #[derive(Clone, Copy)] pub struct SignatureType { v: u8 }
 #[verifier::external_body] #[derive(Clone, Copy)] pub struct HashAlgorithm { v: u8 }
 #[verifier::external_body] #[derive(Clone, Copy)] pub struct PublicKeyAlgorithm { v: u8 }
@@ -20,7 +20,6 @@ pub assume_specification<T, A: core::alloc::Allocator> [std::collections::VecDeq
 #[verifier::external_body] pub struct Timestamp { v: u32 }
 #[verifier::external_body] pub struct Password { v: u8 }
 #[verifier::external_body] pub struct Subpacket { v: u8 }
-#[verifier::external_body] pub struct SubpacketConfig { v: u8 }
 #[verifier::external_body] pub struct LiteralDataHeader { v: u8 }
 
 //@trusted T2 rand::{Rng, CryptoRng} are opaque capabilities; `&mut R` is an Rng when R is
